@@ -51,8 +51,8 @@ func c19results(n int) []model.ProviderResult {
 	out := make([]model.ProviderResult, n)
 	for i := range out {
 		out[i] = model.ProviderResult{
-			ContextID: verif_Bytes("contextID", verif_Choose("contextIDLen", 0, 1+verif_Tier())),
-			Metadata:  verif_Bytes("metadata", verif_Choose("metadataLen", 0, 1+verif_Tier())),
+			ContextID: verif_Bytes("contextID", verif_Choose("contextIDLen", 0, 1+2*verif_Tier())),
+			Metadata:  verif_Bytes("metadata", verif_Choose("metadataLen", 0, 1+2*verif_Tier())),
 			// a valid peer ID (identity multihash of one symbolic byte): real JSON spells peer IDs as text
 			Provider: &peer.AddrInfo{ID: peer.ID([]byte{0x00, 0x01, verif_U8("providerID")})},
 		}
